@@ -1,14 +1,17 @@
 """C12: evaluation failures are returned as errors naming file and line. spec: JetExec.tla (Raise/Unwind), Gen_C12.tla."""
 from execfam import *
+import os
 
 def run(rep, tier, seed):
+    import common
+    common.GOENV["VERIF_PROBE"] = "C12"
     wd = spec_scratch()
     exe = build_harness()
     rep.rule = ("programs: 28 failure classes (each a concrete failing Jet expression from the harness catalogue) x 12 positions in "
                 "a statement (print, :=, =, if condition, if-let, range subject, yield argument/context, yield content context, "
                 "include/exec context, return) x wrapper path of depth <=1 (quick) / <=2 (thorough) that moves the action into an "
                 "included file, an imported block, a block body, a range, a try ... x {executed file, extended layout} x leading "
-                "filler lines; expected: error (not panic) naming file and line, output = exactly the prefix; distinct by program")
+                "filler lines; expected: error (not panic) naming file and line, output = exactly the prefix; distinct by program. Probe: 9 argument values x 20 call shapes (fixed, variadic, interface, pointer parameters; written and piped) on line 3 of an included file: every failing call names file and line, nothing is rendered after it")
     d = 1 if tier == "quick" else 2
     gen_and_replay(rep, wd, exe, "Gen_C12.tla", "C12_d%d" % d, {"Depth": d}, {}, timeout=4000)
     rep.exhaustive = True
